@@ -780,7 +780,7 @@ static int aaf_talker_recv_pdu(int fd_sk, int fd_timer)
 
 static int aaf_listener_recv_pdu(int fd)
 {
-    int res;
+    int res = 0;
     ssize_t n;
     uint32_t val;
     void *pdu = alloca(MAX_PDU_SIZE);
